@@ -821,7 +821,7 @@ def check(ctx, modname, suites, rule, assumptions, notes=(), worker=None, replay
             print("  timing %-50s runs=%7d secs=%8.1f ms/run=%.2f" % (k, per_spec[k]["runs"], per_spec[k]["secs"], 1e3 * per_spec[k]["secs"] / max(per_spec[k]["runs"], 1)))
     cases = sum(v[1] for v in spaces.values())
     nontrivial = sum(v[2] for v in spaces.values())
-    skeys = sorted(samples)
+    skeys = sorted(samples, key=repr)
     pick = [skeys[i] for i in sorted(set([0, len(skeys) // 2, len(skeys) - 1]))] if skeys else []
     bounds = {}
     for su in suites:
